@@ -322,6 +322,7 @@ func vrtNewProviderWith(st *vrtStore, symbolicWant bool) *Provider {
 func vrtServe(p *Provider, rb *vrtReq) (vrtReply, bool) {
 	w := vrtNewWriter()
 	r := vrtReqBuild(rb)
+	vrtEpochRoot = p
 	vrtEpoch() // everything allocated before this point is provider-lifetime state
 	panicked := vrtTry(func() { p.HttpHandler().ServeHTTP(w, r) })
 	if panicked {
